@@ -18,7 +18,7 @@ static const char ALPHA[] = "a:/@?#[].09 ";
 static htp_cfg_t *cfg;
 static htp_connp_t *connp;
 static htp_tx_t *tx;
-static uint64_t n_eval, n_viol, n_auth, n_port, n_port_valid, n_scheme, n_query, n_frag, n_known, n_e2e;
+static uint64_t n_eval, n_viol, n_auth, n_port, n_port_valid, n_scheme, n_query, n_frag, n_known, n_e2e, n_e2e_hist;
 static int printed;
 static hx_buf samples;
 
@@ -125,8 +125,24 @@ static void check_one(const unsigned char *in, size_t len, int e2e) {
         hb_puts(&rq, "GET ");
         hb_put(&rq, in, len);
         hb_puts(&rq, (n_e2e & 1) ? " HTTP/1.1\r\nHost: h:8080\r\n\r\n" : " HTTP/1.1\r\nHost: h\r\n\r\n");
+        /* how a target is split is a function of the target alone, whatever the connection has carried before: every third run is
+         * preceded by an ordinary exchange whose target was absolute-form with credentials and a port, every third travels as plain
+         * HTTP inside a tunnel opened by an accepted CONNECT (QUICK_START hand-over: CONNECT, its 2xx answer, then the request) */
+        size_t txi = 0;
+        if (n_e2e % 3 == 1) {
+            static const char q0[] = "GET http://u:p@other.example:81/o?q#f HTTP/1.1\r\nHost: other.example:81\r\n\r\n", a0[] = "HTTP/1.1 200 OK\r\nContent-Length: 0\r\n\r\n";
+            htp_connp_req_data(c2, NULL, q0, sizeof q0 - 1);
+            htp_connp_res_data(c2, NULL, a0, sizeof a0 - 1);
+            txi = 1;
+        } else if (n_e2e % 3 == 2) {
+            static const char q0[] = "CONNECT www.example.com:8443 HTTP/1.1\r\nHost: www.example.com:8443\r\n\r\n", a0[] = "HTTP/1.1 200 Connection established\r\n\r\n";
+            htp_connp_req_data(c2, NULL, q0, sizeof q0 - 1);
+            htp_connp_res_data(c2, NULL, a0, sizeof a0 - 1);
+            txi = 1;
+        }
         htp_connp_req_data(c2, NULL, rq.p, rq.n);
-        htp_tx_t *t2 = htp_list_get(c2->conn->transactions, 0);
+        htp_tx_t *t2 = htp_list_get(c2->conn->transactions, txi);
+        if (txi) n_e2e_hist += (t2 != NULL && t2->request_uri != NULL && bstr_len(t2->request_uri) == len);
         if (t2 && t2->parsed_uri_raw && t2->request_uri && bstr_len(t2->request_uri) == len) {
             htp_uri_t *r2 = t2->parsed_uri_raw;
             hx_buf k = { 0 };
@@ -265,9 +281,9 @@ int main(int argc, char **argv) {
         check_one(buf, l, (i % 50) == 0);
     }
     printf("S {\"evaluations\":%llu,\"exhaustive\":%llu,\"random\":%llu,\"violations\":%llu,\"known\":%llu,\"with_scheme\":%llu,\"with_authority\":%llu,\"with_port\":%llu,\"with_valid_port\":%llu,"
-           "\"with_query\":%llu,\"with_fragment\":%llu,\"end_to_end\":%llu,\"samples\":[%s]}\n",
+           "\"with_query\":%llu,\"with_fragment\":%llu,\"end_to_end\":%llu,\"end_to_end_after_history\":%llu,\"samples\":[%s]}\n",
            (unsigned long long) n_eval, (unsigned long long) exhaustive, (unsigned long long) nrandom, (unsigned long long) n_viol, (unsigned long long) n_known, (unsigned long long) n_scheme,
-           (unsigned long long) n_auth, (unsigned long long) n_port, (unsigned long long) n_port_valid, (unsigned long long) n_query, (unsigned long long) n_frag, (unsigned long long) n_e2e, samples.p ? samples.p : "");
+           (unsigned long long) n_auth, (unsigned long long) n_port, (unsigned long long) n_port_valid, (unsigned long long) n_query, (unsigned long long) n_frag, (unsigned long long) n_e2e, (unsigned long long) n_e2e_hist, samples.p ? samples.p : "");
     htp_connp_destroy_all(connp);
     htp_config_destroy(cfg);
     hb_free(&samples);
